@@ -2,7 +2,7 @@
 
 RESP_RUN = {"harness": "hresp", "driver": "respdrv",
             "fields": ["n", "err", "w", "head", "hdr", "rest", "trl", "close"], "corpus": "resp",
-            "quick": {"n": 130, "shards": 16}, "thorough": {"n": 3200, "shards": 32}}
+            "quick": {"n": 175, "shards": 16}, "thorough": {"n": 3200, "shards": 32}}
 
 PROPS = {
     "C09": {
@@ -38,8 +38,10 @@ PROPS = {
         "lean": ["NbioVerif.Properties.C11"], "drivers": ["respdrv"], "harness": ["hresp"],
         "runs": [dict(RESP_RUN, fields=["n", "err", "tr", "rd", "cache", "q"])],
         "oracles": ["c11-"],
-        "rule": "same stream as C09; distinct by hash of (config, op-kind sequence with conn writes per op, framing); non-trivial iff a conn "
-                "write happened before the final flush (a buffer changed hands or was flushed and reused)",
+        "rule": "same stream as C09 (resp cases) plus body cases (segmented requests, handler reads, CloseAndClean) and conn cases (write "
+                "queue under scripted kernel answers); distinct by hash of (config, op-kind sequence with conn writes / parser state / "
+                "queue length per op); non-trivial iff a buffer changed hands: a conn write before the final flush, bytes left in the "
+                "parser cache, or a non-empty write queue",
         "assumptions": ["the tracking allocator replaces the real pool (non-recycling, poison on free, move on growth): pool-internal "
                         "behaviour is C20's subject",
                         "content-dependent decisions (chunked, Content-Length verdict, head length) are environment answers of the twin, "
